@@ -47,7 +47,7 @@ impl Prop for C03 {
 
     fn budget(tier: Tier) -> Budget {
         match tier {
-            Tier::Quick => Budget { cases: 1500, shards: 16 },
+            Tier::Quick => Budget { cases: 4500, shards: 16 },
             Tier::Thorough => Budget { cases: 40_000, shards: 16 },
         }
     }
